@@ -292,3 +292,136 @@ twin('c16-twin-branch-order', ['C16'], 'bfg9000/tools/cc/compiler.py',
      "                flags.append('-fPIC')\n"
      "            elif isinstance(i, opts.pthread):\n"
      "                flags.append('-pthread')\n")
+
+# ---------------------------------------------------------------- C03 / C06
+CP = 'bfg9000/builtins/compile.py'
+LK = 'bfg9000/builtins/link.py'
+CMD = 'bfg9000/builtins/command.py'
+CPF = 'bfg9000/builtins/copy_file.py'
+
+mutant('c03-make-compile-no-pch', ['C03', 'C06'], CP,
+       "    if getattr(rule, 'pch', None):\n        deps.append(rule.pch)\n",
+       "", {'C03': 'rule.pch', 'C06': 'dep-roots'})
+mutant('c03-ninja-compile-no-include-deps', ['C03', 'C06'], CP,
+       "    implicit_deps.extend(getattr(rule, 'include_deps', []))\n", "",
+       {'C03': 'include_deps', 'C06': 'dep-roots'})
+mutant('c03-make-link-no-libs', ['C03', 'C06'], LK,
+       "        deps=(rule.files + rule.libs + package_build_deps + module_defs +\n"
+       "              manifest + rule.extra_deps),",
+       "        deps=(rule.files + package_build_deps + module_defs +\n"
+       "              manifest + rule.extra_deps),", {'C03': 'rule.libs', 'C06': 'dep-roots'})
+mutant('c03-ninja-link-no-extra-deps', ['C03', 'C06'], LK,
+       "        implicit=(rule.libs + package_build_deps + module_defs + manifest +\n"
+       "                  rule.extra_deps),",
+       "        implicit=(rule.libs + package_build_deps + module_defs + manifest),",
+       {'C03': 'extra_deps', 'C06': 'dep-roots'})
+mutant('c03-ninja-command-no-files', ['C03', 'C06'], CMD,
+       "        inputs=rule.files,\n        implicit=rule.extra_deps,\n"
+       "        command=shell.global_env(rule.env, rule.cmds),",
+       "        implicit=rule.extra_deps,\n"
+       "        command=shell.global_env(rule.env, rule.cmds),", {'C03': 'rule.files', 'C06': 'dep-roots'})
+mutant('c03-copy-no-dir-dep', ['C03'], CPF,
+       "        order_only=make.directory_deps(rule.output),\n"
+       "        recipe=make.Call(recipename, *args)",
+       "        recipe=make.Call(recipename, *args)", 'order-only')
+mutant('c03-compressfile-unhandled', ['C03', 'C06'], CPF,
+       "@ninja.rule_handler(CopyFile, CompressFile)",
+       "@ninja.rule_handler(CopyFile)", 'CompressFile')
+mutant('c03-link-deps-order-only', ['C03'], LK,
+       "        order_only=make.directory_deps(rule.output),\n"
+       "        recipe=make.Call(recipename, files, *output_params),",
+       "        order_only=make.directory_deps(rule.output) + rule.libs,\n"
+       "        recipe=make.Call(recipename, files, *output_params),",
+       None, )
+mutant('c03-multitarget-drops-deps', ['C03'],
+       'bfg9000/backends/make/writer.py',
+       "    buildfile.rule(primary, deps, order_only, recipe, variables, phony)",
+       "    buildfile.rule(primary, None, order_only, recipe, variables, phony)",
+       'PASS-THROUGH')
+mutant('c03-edge-init-skipped', ['C03'], CPF,
+       "        self.file = file\n"
+       "        super().__init__(context.build, output, None, extra_deps, description)\n\n"
+       "    @staticmethod\n    def convert_args(context, file, kwargs):",
+       "        self.file = file\n"
+       "        if extra_deps is None:\n            return\n"
+       "        super().__init__(context.build, output, None, extra_deps, description)\n\n"
+       "    @staticmethod\n    def convert_args(context, file, kwargs):",
+       'EDGE-INIT')
+mutant('c03-all-from-fallback', ['C03'], 'bfg9000/builtins/default.py',
+       "        deps=build_inputs['defaults'].outputs,",
+       "        deps=build_inputs['defaults'].fallback_defaults,", 'DEFAULTS')
+mutant('c03-test-keeps-default', ['C03'], 'bfg9000/builtins/tests.py',
+       "            context.build['defaults'].remove(primary)\n",
+       "            pass\n", 'DEFAULTS')
+mutant('c03-command-nodes-not-deps', ['C03'], CMD,
+       "        super().__init__(context.build, outputs, extra_deps=implicit,",
+       "        super().__init__(context.build, outputs, extra_deps=extra_deps,",
+       'PASS-THROUGH')
+mutant('c03-new-edge-class', ['C03'], 'bfg9000/builtins/alias.py',
+       "@builtin.function()\ndef alias(context, *args, **kwargs):",
+       "class Group(Edge):\n    def __init__(self, context, name, deps=None):\n"
+       "        super().__init__(context.build, Phony(name), extra_deps=deps)\n\n\n"
+       "@builtin.function()\ndef group(context, *args, **kwargs):\n"
+       "    return Group(context, *args, **kwargs).public_output\n\n\n"
+       "@builtin.function()\ndef alias(context, *args, **kwargs):",
+       'HANDLERS')
+twin('c03-twin-deps-via-chain', ['C03', 'C06'], LK,
+     "        deps=(rule.files + rule.libs + package_build_deps + module_defs +\n"
+     "              manifest + rule.extra_deps),",
+     "        deps=list(chain(rule.files, rule.libs, package_build_deps,\n"
+     "                        module_defs, manifest, rule.extra_deps)),")
+twin('c03-twin-local-rename', ['C03', 'C06'], CP,
+     "    deps = []\n    if getattr(rule, 'pch_source', None):\n"
+     "        deps.append(rule.pch_source)\n    deps.append(rule.file)\n"
+     "    if getattr(rule, 'pch', None):\n        deps.append(rule.pch)\n"
+     "    deps.extend(getattr(rule, 'include_deps', []))\n"
+     "    if getattr(rule, 'libs', None):\n        deps.extend(rule.libs)\n"
+     "    deps.extend(flatten(i.deps for i in getattr(rule, 'packages', [])))\n",
+     "    prereqs = []\n    if getattr(rule, 'pch_source', None):\n"
+     "        prereqs.append(rule.pch_source)\n    prereqs.append(rule.file)\n"
+     "    if getattr(rule, 'pch', None):\n        prereqs.append(rule.pch)\n"
+     "    prereqs.extend(getattr(rule, 'include_deps', []))\n"
+     "    if getattr(rule, 'libs', None):\n        prereqs.extend(rule.libs)\n"
+     "    prereqs.extend(flatten(i.deps for i in getattr(rule, 'packages', [])))\n"
+     "    deps = prereqs\n")
+
+mutant('c06-compdb-no-global-flags', ['C06'], CP,
+       "        cmd_kwargs['flags'] = (compiler.global_flags +\n"
+       "                               compiler.flags(gopts, mode='global') +\n"
+       "                               rule.flags(gopts))",
+       "        cmd_kwargs['flags'] = (compiler.flags(gopts, mode='global') +\n"
+       "                               rule.flags(gopts))", 'flag-component')
+mutant('c06-compdb-link-no-libs', ['C06'], LK,
+       "    if hasattr(linker, 'libs_var'):\n"
+       "        cmd_kwargs['libs'] = (linker.global_libs +\n"
+       "                              linker.lib_flags(gopts, mode='global') +\n"
+       "                              rule.lib_flags(gopts))\n"
+       "    if hasattr(rule, 'manifest'):\n"
+       "        cmd_kwargs['manifest'] = rule.manifest\n\n"
+       "    file = rule.files[0]",
+       "    if hasattr(rule, 'manifest'):\n"
+       "        cmd_kwargs['manifest'] = rule.manifest\n\n"
+       "    file = rule.files[0]", 'SIBLING')
+mutant('c06-ninja-own-flags', ['C06'], LK,
+       "    variables, cmd_kwargs = _get_flags(ninja, rule, build_inputs, buildfile)\n"
+       "    if rule.description:",
+       "    variables, cmd_kwargs = _get_flags(make, rule, build_inputs, buildfile)\n"
+       "    if rule.description:", 'shared-_get_flags')
+mutant('c06-compdb-no-transform', ['C06'], LK,
+       "    in_files = rule.files\n"
+       "    if hasattr(linker, 'transform_input'):\n"
+       "        in_files = linker.transform_input(in_files)\n",
+       "    in_files = rule.files\n", 'transform_input')
+mutant('c06-ninja-command-env-dropped', ['C06'], CMD,
+       "        command=shell.global_env(rule.env, rule.cmds),\n"
+       "        console=rule.console,",
+       "        command=shell.global_env({}, rule.cmds),\n"
+       "        console=rule.console,", 'command-env')
+mutant('c06-compdb-flag-order', ['C06'], CP,
+       "        cmd_kwargs['flags'] = (compiler.global_flags +\n"
+       "                               compiler.flags(gopts, mode='global') +\n"
+       "                               rule.flags(gopts))",
+       "        cmd_kwargs['flags'] = (rule.flags(gopts) +\n"
+       "                               compiler.global_flags +\n"
+       "                               compiler.flags(gopts, mode='global'))",
+       'flag-order')
